@@ -373,6 +373,22 @@ class Interposer:
         os.symlink = self._w_generic('symlink', True)
         builtins.open = self.w_builtin_open
         io.open = self.w_builtin_open
+        # code under test may hold the primitives under other names (`from os import rename, unlink, fsync`,
+        # `from io import open`): every global of a loaded jug module that IS one of the original primitives gets the
+        # wrapper too (restored by uninstall)
+        import sys
+        wrappers = dict((id(_ORIG[n]), (getattr(os, n), _ORIG[n])) for n in _PATCHED_OS)
+        wrappers[id(_ORIG['io.open'])] = (self.w_builtin_open, _ORIG['io.open'])
+        wrappers[id(_ORIG['builtins.open'])] = (self.w_builtin_open, _ORIG['builtins.open'])
+        self.rebound = []
+        for mname, mod in list(sys.modules.items()):
+            if mod is None or not (mname == 'jug' or mname.startswith('jug.')):
+                continue
+            for gname, val in list(vars(mod).items()):
+                w = wrappers.get(id(val))
+                if w is not None and val is w[1]:
+                    setattr(mod, gname, w[0])
+                    self.rebound.append((mod, gname, w[1]))
         self.installed = True
         return self
 
@@ -389,6 +405,9 @@ class Interposer:
             setattr(os, n, _ORIG[n])
         builtins.open = _ORIG['builtins.open']
         io.open = _ORIG['io.open']
+        for mod, gname, orig in getattr(self, 'rebound', []):
+            setattr(mod, gname, orig)
+        self.rebound = []
         _ORIG.clear()
         self.installed = False
 
